@@ -296,3 +296,11 @@ zcomp!(DNull, DerefFlaggedStorage<Self, NullStorage<Self>>);
 comp!(CVec2, VecStorage<Self>);
 comp!(CDense2, DenseVecStorage<Self>);
 comp!(CHash2, HashMapStorage<Self>);
+
+/// `ChangeSet` amounts must accumulate: the right-hand side is consumed (and destroyed) by `+=`.
+impl std::ops::AddAssign for CDense {
+    fn add_assign(&mut self, rhs: CDense) {
+        let v = self.val() + rhs.val();
+        self.set_val(v);
+    }
+}
